@@ -14,8 +14,9 @@
    panic, which assigned nothing.  For scripts without panics [fn_ret o = (oval o, oerr o)] and
    [shared] is the identity ([Proofs.fn_ret_nopanic], [Proofs.shared_id]). *)
 From Coq Require Import List ZArith Bool Arith.
-From GZ Require Import Lib.Sched C07.Model C07.Proofs C07.ProofsB.
+From GZ Require Import Lib.Sched C07.Model C07.Proofs C07.ProofsB C07.Check C07.CheckProofs C07.CheckModel.
 Import ListNotations.
+Local Open Scope nat_scope.
 
 (* At most one execution of the supplied function is in progress per key (and group), at
    every step of every schedule.  [running g k s] counts the threads that are between the
@@ -205,6 +206,36 @@ Proof. exact quiescent_blocked_l. Qed.
 Print Assumptions quiescent_blocked_behind_running_function.
 
 (* ------------------------------------------------------------------ *)
+(* The decidable checker [Check.scan] (first conjunct of prop_ok, run on the event log of the
+   IMPLEMENTATION) is not an oracle.
+   (1) Soundness: a log it accepts has no two overlapping executions for one (group, key) - between
+       the starts of two executions of calls on the same key the first has ended - and every thread
+       logged as blocked is, at that moment, behind an execution of ANOTHER thread for ITS OWN key
+       that has started and not ended (keys do not wait for each other; nobody waits on nothing).
+   (2) Completeness w.r.t. the model: the log of EVERY run of the LTS ([CheckModel.mlog]: one event
+       per observable action; a disabled choice in a gate-level quiescent state logs "blk") is
+       accepted.  Hence a log rejected by [scan] is not a log of the model. *)
+Theorem checker_scan_sound_no_overlap : forall c l, scan c l [] = true ->
+  forall l1 e1 l2 e2 l3, l = l1 ++ e1 :: l2 ++ e2 :: l3 -> ek e1 = 1%Z -> ek e2 = 1%Z ->
+  same_call_key c (eid e1) (eid e2) ->
+  exists f, In f l2 /\ ek f = 2%Z /\ eid f = eid e1.
+Proof. exact scan_no_overlap. Qed.
+Print Assumptions checker_scan_sound_no_overlap.
+
+Theorem checker_scan_sound_blocked : forall c l, scan c l [] = true ->
+  forall l1 e l3, l = l1 ++ e :: l3 -> ek e = 4%Z ->
+  exists la s lb, l1 = la ++ s :: lb /\ ek s = 1%Z /\ ea s <> ea e /\
+                  same_call_key c (eid s) (eid e) /\
+                  forall f, In f lb -> ek f = 2%Z -> eid f <> eid s.
+Proof. exact scan_blocked_behind_own_key. Qed.
+Print Assumptions checker_scan_sound_blocked.
+
+Theorem model_log_passes_scan : forall scripts sched,
+  scan (mcase scripts sched) (mlog scripts sched) [] = true.
+Proof. exact model_log_passes_scan_l. Qed.
+Print Assumptions model_log_passes_scan.
+
+(* ------------------------------------------------------------------ *)
 (* non-vacuity: concrete interleavings in which the interesting things happen *)
 
 (* two callers of one key: thread 1 joins while thread 0's function runs, both get 101;
@@ -266,3 +297,20 @@ Example ex_quiescent_blocked :
   let s := exec ex_scripts [0;0;0;1;1] in
   quiescent s = true /\ enabled s 1 = false /\ unfinished s = true /\ can_move s = true.
 Proof. vm_compute. repeat split; reflexivity. Qed.
+
+(* the model's log of the first example: inv/fs of thread 0, inv of thread 1, fe + the two returns,
+   then thread 2's own execution; and a log with two overlapping executions is rejected *)
+Example ex_model_log :
+  map (fun e => (Z.of_nat (ea e), ek e, ev1 e, ev3 e)) (mlog ex_scripts ex_sched)
+  = [(0, 0, 0, 0); (0, 1, 0, 0); (1, 0, 0, 0); (0, 2, 0, 0); (0, 3, 101, 1); (1, 3, 101, 0);
+     (2, 0, 0, 0); (2, 1, 0, 0); (2, 2, 0, 0); (2, 3, 301, 1)]%Z.
+Proof. vm_compute. reflexivity. Qed.
+
+Example ex_scan_rejects_overlap :
+  scan (mkCase ex_scripts false false [] []) [mkEv 1 0 1 0 0 0 0; mkEv 2 1 1 0 0 0 0]%Z [] = false.
+Proof. vm_compute. reflexivity. Qed.
+
+(* a blocked thread in a quiescent state of the model is logged and accepted *)
+Example ex_model_log_blk :
+  map (fun e => (Z.of_nat (ea e), ek e)) (mlog ex_scripts [0;0;0;1;1;1]) = [(0, 0); (0, 1); (1, 0); (1, 4)]%Z.
+Proof. vm_compute. reflexivity. Qed.
